@@ -311,6 +311,30 @@ def install(ex, game, env):
         return mk_option(old[0], old[1]) if old is not None else NONE
     ex.model(r'^std::collections::HashMap::<board::zkey::ZKey, board::transposition_table::TTEntry, .*>::insert$', tt_insert)
 
+    def tt_entry(ctx, mp, key):
+        k = key[0]
+        if not isinstance(k, CI):
+            raise Unsupported('symbolic transposition-table key')
+        return ('tt_entry', mp, k.v)
+    ex.model(r'^std::collections::HashMap::<board::zkey::ZKey, board::transposition_table::TTEntry, .*>::entry$', tt_entry)
+
+    def tt_or_insert(ctx, e, entry):
+        # Entry::or_insert(value): a write exactly when the key is absent (or the cache is off: then always absent)
+        _, mp, k = e
+        m = ctx.deref(mp)
+        old = m.d.get(k) if env.get('cache', True) else None
+        absent = True if old is None else b_not(old[0])
+        if absent is not False:
+            g = ctx.st.guard if absent is True else b_and(ctx.st.guard, absent)
+            env['inserts'].append({'key': k, 'entry': entry, 'guard': g, 'where': ctx.where,
+                                   'aborted_below': ctx.st.store.get(('G', 'aborted_below'), False)})
+        d = dict(m.d)
+        newv = entry if old is None else ite(old[0], old[1], entry)
+        d[k] = (True, newv)
+        ctx.write(mp, MapV(d))
+        return ctx.ex.alloc(ctx.st, newv)       # writes through the returned &mut are not propagated back (none occur in search.rs)
+    ex.model(r'^std::collections::hash_map::Entry::<.*board::transposition_table::TTEntry>::or_insert$', tt_or_insert)
+
     def tt_clear(ctx, mp):
         ctx.write(mp, MapV({}))
         return UNIT
